@@ -8,7 +8,8 @@ checks, na = [], []
 for p in props:
     pid = p["id"]
     mp = os.path.join(V, "harness", pid.lower(), "meta.json")
-    if os.path.exists(mp):
+    claimed = set(open(os.path.join(V, "claimed.txt")).read().split())
+    if os.path.exists(mp) and pid in claimed:
         m = json.load(open(mp))
         checks.append({
             "property_id": pid,
